@@ -130,6 +130,98 @@ func c13Facts(f *factSet, repo string) error {
 		tc = 1
 	}
 	f.Nat("c13CanStopTestAndClear", uint64(tc))
+	// every write of a state word goes through the methods of c2/state.go: count the statements of
+	// package c2 (all files, whatever their build tags) that write one directly - an assignment, an
+	// operator assignment or ++/-- whose target is a field named `state` (or `*s` inside a method of
+	// *state), an atomic call on such a field outside state.go, and any atomic call in state.go that
+	// is not a Load or a CompareAndSwap
+	direct := 0
+	var where []string
+	files, _ := filepath.Glob(repo + "/c2/*.go")
+	for _, fn := range files {
+		if strings.HasSuffix(fn, "_test.go") || strings.Contains(filepath.Base(fn), "zz_verif") {
+			continue
+		}
+		af, err := parser.ParseFile(fs, fn, nil, 0)
+		if err != nil {
+			return err
+		}
+		inState := filepath.Base(fn) == "state.go"
+		isStateField := func(e ast.Expr) bool {
+			for {
+				switch x := e.(type) {
+				case *ast.ParenExpr:
+					e = x.X
+					continue
+				case *ast.SelectorExpr:
+					return x.Sel.Name == "state"
+				case *ast.StarExpr:
+					if id, ok := x.X.(*ast.Ident); ok && inState && id.Name == "s" {
+						return true
+					}
+					return false
+				}
+				return false
+			}
+		}
+		mentionsState := func(e ast.Expr) bool {
+			found := false
+			ast.Inspect(e, func(n ast.Node) bool {
+				if se, ok := n.(*ast.SelectorExpr); ok && se.Sel.Name == "state" {
+					found = true
+				}
+				return true
+			})
+			return found
+		}
+		ast.Inspect(af, func(n ast.Node) bool {
+			switch x := n.(type) {
+			case *ast.AssignStmt:
+				if x.Tok == token.DEFINE {
+					return true
+				}
+				for _, l := range x.Lhs {
+					if isStateField(l) {
+						direct++
+						where = append(where, fs.Position(x.Pos()).String())
+					}
+				}
+			case *ast.IncDecStmt:
+				if isStateField(x.X) {
+					direct++
+					where = append(where, fs.Position(x.Pos()).String())
+				}
+			case *ast.CallExpr:
+				se, ok := x.Fun.(*ast.SelectorExpr)
+				if !ok {
+					return true
+				}
+				id, ok := se.X.(*ast.Ident)
+				if !ok || id.Name != "atomic" {
+					return true
+				}
+				if inState {
+					if se.Sel.Name != "LoadUint32" && se.Sel.Name != "CompareAndSwapUint32" {
+						direct++
+						where = append(where, fs.Position(x.Pos()).String())
+					}
+					return true
+				}
+				for _, a := range x.Args {
+					if mentionsState(a) {
+						direct++
+						where = append(where, fs.Position(x.Pos()).String())
+					}
+				}
+			}
+			return true
+		})
+	}
+	f.Nat("c13DirectStateWrites", uint64(direct))
+	for i := range where {
+		where[i] = strconv.Quote(strings.TrimPrefix(where[i], repo+"/"))
+	}
+	f.Raw("c13DirectStateWriteSites", "List String", "["+strings.Join(where, ", ")+"]")
 	return nil
 }
 
